@@ -324,7 +324,12 @@ class ElementList(MutableSequence):
             child = value
         elif isinstance(value, BaseDataType):
             child = self.create_element(name, False, reference)
-            child.value = value
+            try:
+                child.value = value
+            except Exception:
+                # the value has been refused: do not leave the empty child, just created, attached
+                self.remove(child)
+                raise
         else:
             raise ChildNotValid(value, child_name)
 
